@@ -29,7 +29,7 @@ Ltac dcrush :=
   rewrite ?N.eqb_refl; simpl;
   repeat match goal with |- context [?a =? ?b] => destruct (a =? b) eqn:?; simpl end; auto.
 
-(* after the repairs 7dd46dd/8a03683 the decision tree equals the specification for EVERY well-formed descriptor
+(* after the repairs 7dd46dd/8a03683/4561dbf the decision tree equals the specification for EVERY well-formed descriptor
    and every existing property without stale fields, kind conversions included *)
 Lemma define_refines_spec : forall ext ex d,
   desc_wf d = true -> oclean ex = true ->
@@ -60,35 +60,28 @@ Proof.
     destruct de as [[|]|], dc as [[|]|]; dcrush.
 Qed.
 
-(* a define that does not convert the kind leaves no stale fields *)
-Lemma define_clean_partial : forall ext ex d,
-  desc_wf d = true -> oclean ex = true -> no_kind_change ex d = true ->
-  oclean (goja_define ext ex d) = true.
+(* ... and, since 4561dbf, it never leaves stale fields behind, kind conversions included *)
+Lemma define_clean : forall ext ex d,
+  desc_wf d = true -> oclean ex = true -> oclean (goja_define ext ex d) = true.
 Proof.
-  intros ext ex [dv dw dg ds de dc] Hwf Hcl Hk.
+  intros ext ex [dv dw dg ds de dc] Hwf Hcl.
   destruct ex as [[v|[pv pw pe pc pa pg ps]]|]; simpl in *.
-  - destruct dg as [[g|]|], ds as [[s|]|]; simpl in *; try discriminate;
-    destruct dv as [x|], dw as [[|]|], de as [[|]|], dc as [[|]|]; dcrush.
+  - destruct dg as [[g|]|], ds as [[s|]|]; simpl in *;
+    destruct dv as [x|], dw as [[|]|]; simpl in *; try discriminate;
+    destruct de as [[|]|], dc as [[|]|]; dcrush.
   - destruct pa; simpl in *.
-    + destruct dv, dw; simpl in *; try discriminate.
-      apply andb_true_iff in Hcl; destruct Hcl as [Hw Hv].
+    + apply andb_true_iff in Hcl; destruct Hcl as [Hw Hv].
       simpl in Hw, Hv. apply negb_true_iff in Hw; apply N.eqb_eq in Hv; subst.
-      destruct pc, pe, dg as [[g|]|], ds as [[s|]|], de as [[|]|], dc as [[|]|], pg as [pg|], ps as [ps|]; dcrush.
-    + destruct dg, ds; simpl in *; try discriminate.
-      apply andb_true_iff in Hcl; destruct Hcl as [Hg Hs].
+      destruct dv as [x|], dw as [[|]|]; simpl in *;
+      destruct dg as [[g|]|], ds as [[s|]|]; simpl in *; try discriminate;
+      destruct pc, pe, de as [[|]|], dc as [[|]|], pg as [pg|], ps as [ps|]; dcrush.
+    + apply andb_true_iff in Hcl; destruct Hcl as [Hg Hs].
       simpl in Hg, Hs. destruct pg; simpl in Hg; try discriminate. destruct ps; simpl in Hs; try discriminate.
-      destruct pc, pw, pe, dv as [x|], dw as [[|]|], de as [[|]|], dc as [[|]|]; dcrush.
+      destruct dg as [[g|]|], ds as [[s|]|]; simpl in *;
+      destruct dv as [x|], dw as [[|]|]; simpl in *; try discriminate;
+      destruct pc, pw, pe, de as [[|]|], dc as [[|]|]; dcrush.
   - destruct ext; [|dcrush].
     destruct dg as [[g|]|], ds as [[s|]|]; simpl in *;
     destruct dv as [x|], dw as [[|]|]; simpl in *; try discriminate;
     destruct de as [[|]|], dc as [[|]|]; dcrush.
-Qed.
-
-(* the configurable kind conversions still leave stale fields (findings C07-N1/N2/N3) *)
-Lemma define_stale_refuted :
-  exists ex d, oclean ex = true /\ desc_wf d = true /\ no_kind_change ex d = false /\
-               oclean (goja_define true ex d) = false.
-Proof.
-  exists (Some (IPlain 5)), (mkD None None (Some (Some 1)) None None None).
-  repeat split; vm_compute; congruence.
 Qed.
